@@ -26,7 +26,7 @@ def scopes(chk):
     sc.append(('defs', {'Budget': 3 if quick else 4, 'TextPool': ['a', ' ', '['], 'ComPool': [], 'MathKinds': ['$'], 'MEnvNames': [],
                         'VerbNames': [], 'Leaves': D.DEF_LEAVES + [D.leaf_cmd('def', ('{', 'a'), ('{', 'b')), D.leaf_cmd('section', ('{', 't')), D.leaf_cmd('section', ('[', 's'), ('{', 't')),
                                                    D.leaf_cmd('textbf', ('{', 'b')), D.leaf_cmd('label', ('{', 'k')), 'Cmd(%s, <<>>)' % D.S('noindent')],
-                        'ListNames': ['itemize'], 'MaxSib': 3}))
+                        'ListNames': ['itemize'], 'MaxSib': 3, 'CmdNames': ['a', 'nm'], 'MaxArgs': 2}))      # \nm is also USED, with arguments
     return sc
 
 
